@@ -8,6 +8,8 @@ CONSTANTS
   ApplyNoBackup = FALSE
   NoReloadAfterRestore = FALSE
   MetricsToDefaultPath = FALSE
+  StaleBackup = FALSE
+  RecordHistory = FALSE
 SPECIFICATION TraceSpec
 CONSTRAINT HWM
 POSTCONDITION Post
